@@ -17,3 +17,12 @@ package program
 // the first field of a credentials line is the device name pattern, not a secret
 //vc:  assume at "path.Match(parts[0], name)" secretFree(arg0)
 //vc:  ensures[C17] @errorsDoNotQuoteCredentials result2 != nil ==> cleanAny(result2)
+
+// ---- C06: a configured value is taken whole ----
+// Everything behind "=" is the value; in particular the banner marker
+// "checkbanner = ###NetSPoC###" starts with the comment character.
+//vc:ghost var cfgLineWords []string
+//vc:func LoadConfig
+//vc:  inline
+//vc:  assign after "strings.Fields(line)" cfgLineWords = callresult
+//vc:  assert[C06] at "insert(key, words[2:]...)" @wholeValueTaken arg0 == cfgLineWords[0] && arg1 == cfgLineWords[2:]
